@@ -1,5 +1,6 @@
 import YakModel.Proofs.TreeProofs
 import YakProps.C02
+import YakModel.Proofs.RouteProofs
 /-!
 # C08 — Tree stays coherent (sequential quantifier)
 
@@ -77,5 +78,34 @@ theorem content_is_last_put (ops : List C02.Op) (k : Key) (v : Val) :
       (C02.runSpecState (fun _ => none) ops) k = some v := by
   rw [← lookup_iff_content _ (inv_reachable ops), lookup_run Tree.empty C02.inv_empty.1 ops k,
     funext C02.inv_empty.2]
+
+/-! ### Interior nodes: descending by `get_child_of` = the fence rule of the proof model
+
+The proof model above has no interior nodes: a layer is a chain of leaves with lower fences and a
+lookup goes to the last leaf whose fence is `≤` the key. The implementation descends through
+interior nodes (`find_border` / `interior_node::get_child_of`, modelled by `routeIdx`). The
+correspondence checker compares the implementation's structure dump (a `Shape.BTree`, interior
+nodes included) with the model through `chainOf` and evaluates `checkLayer` on it after every
+mutation. These theorems close the gap between the two views: on every dump that passes
+`checkLayer` — separators strictly increasing, one more child than separators, fences of the
+flattened chain strictly increasing — the interior descent arrives at exactly the leaf the fence
+rule (and the model's own `Tree.route`) selects. -/
+
+theorem interior_descent_matches_fences (pfx : List UInt8) (t : Yak.Shape.BTree) (k : KT)
+    (h : Yak.Shape.checkLayer pfx t = true) (hk : k.WF) :
+    Yak.Route.descend t k =
+      (Yak.Route.byFence (Yak.Shape.chainOf t none) k).map Yak.Route.leafOut :=
+  Yak.Route.checkLayer_routes pfx t k h hk
+
+theorem interior_descent_matches_model_route (pfx : List UInt8) (t : Yak.Shape.BTree)
+    (ls : List Tree.Leaf) (k : KT) (h : Yak.Shape.checkLayer pfx t = true)
+    (hf : ls.map (·.fence) = (Yak.Shape.chainOf t none).map (·.fence)) (hk : k.WF) :
+    Yak.Route.descend t k = ((Yak.Shape.chainOf t none)[Tree.route k ls]?).map Yak.Route.leafOut :=
+  Yak.Route.checkLayer_routes_model pfx t ls k h hf hk
+
+/-- the descent never falls off a well-formed dump. -/
+theorem interior_descent_total (pfx : List UInt8) (t : Yak.Shape.BTree) (k : KT)
+    (h : Yak.Shape.checkLayer pfx t = true) (hk : k.WF) : (Yak.Route.descend t k).isSome = true :=
+  Yak.Route.checkLayer_descend_isSome pfx t k h hk
 
 end Yak.Props.C08
